@@ -806,6 +806,14 @@ func (e *SpecEnv) eval(n ast.Expr) Val {
 		return Val{K: KSlice, T: b.T, Arr: b.Arr, Off: sAdd(b.Off, lo), Len: sSub(hi, lo), Cap: sSub(b.Cap, lo)}
 	case *ast.CallExpr:
 		return e.call(v)
+	case *ast.CompositeLit:
+		// T{}: the zero value of a named array or struct type
+		if len(v.Elts) == 0 {
+			if t := e.x.eng.resolveType(e.pkg, v.Type); t != nil {
+				e.x.declZero(t)
+				return zeroVal(t)
+			}
+		}
 	}
 	sfail("unsupported spec expression %s (%T)", exprString(n), n)
 	return Val{}
@@ -1254,6 +1262,13 @@ func (x *Exec) pureApp(fr *Frame, st *State, key string, con *Contract, sig *typ
 	if con != nil && con.Opts["reads"] != "" && con.Opts["reads"] != "heap" {
 		// declared read set: a list of types (struct type = all its fields, slice type = its elements)
 		for _, ts := range splitTop(con.Opts["reads"], ',') {
+			if g := strings.TrimSpace(ts); strings.HasPrefix(g, "gh:") {
+				// a ghost array (the function is a view of ghost state)
+				ss, ts2 := x.materialize(st, "G."+g[3:], mathInt)
+				sorts = append(sorts, ss...)
+				terms = append(terms, ts2...)
+				continue
+			}
 			te, err := parser.ParseExpr(strings.TrimSpace(ts))
 			if err != nil {
 				panic(oos("bad reads option of %s: %v", key, err))
